@@ -128,3 +128,14 @@ package account
 //@   ensures result1 == nil ==> froAt(acc.db.kvhas, acc.db.kvval, ekey(eprefix(ref(acc)), execaddr, addr)) == froAt(old(acc.db.kvhas), old(acc.db.kvval), ekey(eprefix(ref(acc)), execaddr, addr)) - amount
 //@   ensures result1 == nil ==> amount > 0 && froAt(acc.db.kvhas, acc.db.kvval, ekey(eprefix(ref(acc)), execaddr, addr)) >= 0
 //@   ensures result1 == nil ==> forall k Bytes :: k != ekey(eprefix(ref(acc)), execaddr, addr) ==> acc.db.kvhas[k] == old(acc.db.kvhas[k]) && acc.db.kvval[k] == old(acc.db.kvval[k])
+
+// mining deposit: coins are issued to the executor only after the same-address case has been refused, and
+// the frozen deposit is made only after the issue succeeded (so the only failing step is the first)
+//@ pure func (*DB).ExecIssueCoins
+//@ pure func (*DB).execDepositFrozen
+//@ pure func (*DB).mergeReceipt
+//@ func (*DB).ExecDepositFrozen [C15]
+//@   opt safety=assumed
+//@   assert@call ExecIssueCoins: addr != execaddr && arg1 == execaddr && arg2 == amount
+//@   assert@call execDepositFrozen: ret1(ExecIssueCoins) == nil && arg1 == addr && arg2 == execaddr && arg3 == amount
+//@   ensures addr == execaddr ==> result1 == types.ErrSendSameToRecv && !called(ExecIssueCoins)
